@@ -24,6 +24,7 @@ type TierCfg struct {
 	TimeoutS   int            `json:"solver_timeout_s"`
 	Harnesses  []string       `json:"harnesses"` // subset of harness funcs; empty = all
 	MaxPaths   int            `json:"max_paths"`
+	MaxWallS   int            `json:"max_wall_s"`
 	Cross      string         `json:"cross_solver"`
 	BoundsText string         `json:"bounds_text"`
 }
@@ -136,7 +137,7 @@ func runCheck(id, tier string) int {
 	}
 	cfg := &RunConfig{
 		Unwind: 4000, MaxSteps: 20_000_000, MaxAlloc: 1 << 16, MaxConcretize: 70000,
-		Bounds: tc.Bounds, Solver: SolverKind(cc.Solver), TimeoutMs: 60000,
+		Bounds: tc.Bounds, Solver: SolverKind(cc.Solver), TimeoutMs: 20000,
 		Workers: envInt("VERIF_WORKERS", runtime.NumCPU()), Seed: seed, MaxPaths: tc.MaxPaths,
 		Debug: os.Getenv("VERIF_DEBUG") != "",
 	}
@@ -146,6 +147,14 @@ func runCheck(id, tier string) int {
 	if tc.Unwind > 0 {
 		cfg.Unwind = tc.Unwind
 	}
+	budget := tc.MaxWallS
+	if budget == 0 {
+		budget = 1200
+		if tier == "thorough" {
+			budget = 6 * 3600
+		}
+	}
+	cfg.Deadline = t0.Add(time.Duration(budget) * time.Second)
 	if tc.TimeoutS > 0 {
 		cfg.TimeoutMs = tc.TimeoutS * 1000
 	}
@@ -439,28 +448,28 @@ func writeEvidence(id, tier string, seed int64, results []*HarnessResult, cc *Ch
 		"exhaustive":                    len(inconclusive) == 0,
 		"explanation": "states = feasible symbolic paths executed to completion (each covers every input satisfying its path condition); " +
 			"transitions = solver-decided branch decisions; case-split shapes are enumerated exhaustively; all verdicts are SMT unsat/sat answers over the SSA of /repo's current working tree",
-		"functions_encoded":      fl,
-		"bounds":                 tc.Bounds,
-		"bounds_text":            tc.BoundsText,
-		"outside_bounds":         cc.OutsideBounds,
-		"oracle":                 cc.Oracle,
-		"shapes":                 shapes,
-		"queries":                queries,
-		"queries_unsat":          unsat,
-		"queries_sat":            sat,
-		"queries_unknown":        unknown,
-		"answered_by_cached_model": modelHits,
-		"solver_time_s":          solverS,
-		"solver":                 cc.Solver,
-		"unwind_ok":              !containsSub(inconclusive, "unwinding"),
-		"covers_hit":             covers,
-		"assertions_checked":     asserts,
-		"known_finding_hits":     known,
-		"known_finding_loose_paths": loose,
-		"stubs":                  stubs,
-		"per_harness":            perHarness,
-		"inconclusive":           inconclusive,
-		"violations_detail":      viol,
+		"functions_encoded":                fl,
+		"bounds":                           tc.Bounds,
+		"bounds_text":                      tc.BoundsText,
+		"outside_bounds":                   cc.OutsideBounds,
+		"oracle":                           cc.Oracle,
+		"shapes":                           shapes,
+		"queries":                          queries,
+		"queries_unsat":                    unsat,
+		"queries_sat":                      sat,
+		"queries_unknown":                  unknown,
+		"answered_by_cached_model":         modelHits,
+		"solver_time_s":                    solverS,
+		"solver":                           cc.Solver,
+		"unwind_ok":                        !containsSub(inconclusive, "unwinding"),
+		"covers_hit":                       covers,
+		"assertions_checked":               asserts,
+		"known_finding_hits":               known,
+		"known_finding_loose_paths":        loose,
+		"stubs":                            stubs,
+		"per_harness":                      perHarness,
+		"inconclusive":                     inconclusive,
+		"violations_detail":                viol,
 		"translator_validation_mismatches": valMismatch,
 	}
 	if P != nil {
